@@ -11,9 +11,11 @@ from __future__ import annotations
 
 import ast
 
+from pv.q import text as qtext
 from pv.model import AnalysisError, walk_no_nested, params, UNKNOWN
 from pv import refs, unify
 from pv.q import has_stmt, has_if, find_if, returns, body_texts
+from pv.q import stmts as q_stmts
 
 H = "passlib.handlers."
 
@@ -117,7 +119,9 @@ def rule_sibling(model, rep):
     fb = [(d, t.replace("h64_engine", "h64")) for d, t in fb]
     if [d for d, _ in fa] != [d for d, _ in fb]:
         i = next((i for i, (x, y) in enumerate(zip(fa, fb)) if x != y), min(len(fa), len(fb)))
-        rep.undecided(R, site(H + "sha2_crypt", "_raw_sha2_crypt"), f"the two copies no longer have the same statement structure (first divergence at normalised statement {i})")
+        xa = fa[i][1] if i < len(fa) else "<end>"
+        xb = fb[i][1] if i < len(fb) else "<end>"
+        rep.undecided(R, site(H + "sha2_crypt", "_raw_sha2_crypt"), f"the two copies no longer have the same statement structure (first divergence at normalised statement {i}: passlib `{xa[:70]}` vs libpass `{xb[:70]}`)")
         return
     diffs = [(i, x[1], y[1]) for i, (x, y) in enumerate(zip(fa, fb)) if x[1] != y[1]]
     if not diffs:
@@ -129,14 +133,29 @@ def rule_sibling(model, rep):
 def _sha_crypt_spec_facts(model, rep, R):
     for un, q, pw, h in ((H + "sha2_crypt", "_raw_sha2_crypt", "pwd", "hash_const"), ("libpass.hashers.sha_crypt", "_sha_crypt", "secret", "hash_method")):
         fn = model.func(un, q)
-        t = ast.unparse(fn)
+        t = qtext(fn)
         ln = "pwd_len" if pw == "pwd" else "secret_len"
         facts = [(f"{h}({pw} + salt + {pw}).digest()", "digest B = H(pwd, salt, pwd)"), (f"{h}({pw} + salt)", "digest A starts with pwd, salt"),
                  (f"if {ln} < 96:", "memory/speed switch at 96 bytes"), (f"i = {ln} - 1", "P-digest context already holds one copy: len-1 more updates"),
-                 (f"{h}({pw} * {ln}).digest()", "P-digest = H(pwd repeated len times)"), (f"{h}(salt * (16 + da[0])).digest()", "S-digest = H(salt repeated 16 + A[0] times)"),
+                 (f"{h}({pw} * {ln}).digest()", "P-digest = H(pwd repeated len times)"), (f"{h}(salt * (16 + da[0])).digest()" + ("[:salt_len]" if pw == "pwd" else "[:len(salt)]"), "S-digest = H(salt repeated 16 + A[0] times), cut to the salt length"),
                  ("blocks, tail = divmod(rounds, 42)", "42-round blocks"), ("pairs = tail >> 1", "leftover pairs"), ("if tail & 1:", "odd final round")]
         for f, why in facts:
             rep.check(f in t, R, site(un, q), f, why, witness="sha-crypt digest differs from Drepper's specification for the inputs that reach this step")
+        # round loop control: 42-round blocks, then (inside `if tail`) the pairs and the odd last round
+        h = h  # digest constructor name in this copy
+        tail_if = find_if(fn, "tail")
+        ok = len(tail_if) == 1 and [type(x).__name__ for x in tail_if[0].body] == ["Assign", "For", "If"] and ast.unparse(tail_if[0].body[0]) == "pairs = tail >> 1" \
+            and ast.unparse(tail_if[0].body[1].iter) == "data[:pairs]" and ast.unparse(tail_if[0].body[2].test) == "tail & 1" and not tail_if[0].orelse
+        rep.check(ok, R, site(un, q), "if tail: pairs = tail >> 1; for .. in data[:pairs]; if tail & 1: one more round" if ok else
+                  ("leftover-rounds block: " + (ast.unparse(tail_if[0])[:120] if tail_if else "`if tail:` not found")),
+                  "leftover rounds: guarded by `tail` itself (a single leftover round has no pair), pairs first, then the odd round",
+                  witness="rounds = 42k+1: the last round is skipped -- hashes differ from crypt(3)")
+        wl = [n for n in walk_no_nested(fn) if isinstance(n, ast.While) and ast.unparse(n.test) == "blocks"]
+        ok = len(wl) == 1 and [ast.unparse(x) for x in wl[0].body][-1] == "blocks -= 1" and isinstance(wl[0].body[0], ast.For) and ast.unparse(wl[0].body[0].iter) == "data"
+        rep.check(ok, R, site(un, q), ast.unparse(wl[0])[:100] if wl else "<no `while blocks` loop>", "full blocks: all 21 (even, odd) pairs per block, counted down")
+        for rnd, want in (("pair round", f"dc = {h}(odd + {h}(dc + even).digest()).digest()"), ("odd last round", f"dc = {h}(dc + data[pairs][0]).digest()")):
+            cnt = sum(1 for x in q_stmts(fn) if ast.unparse(x) == want)
+            rep.check(cnt == (2 if rnd == "pair round" else 1), R, site(un, q), f"{cnt} x `{want}`", f"{rnd}: digest chaining as specified (even-round input after the digest, odd-round input before it)")
         perms = [n for n in walk_no_nested(fn) if isinstance(n, ast.Assign) and ast.unparse(n.targets[0]) == "perms"]
         rep.check(len(perms) == 1 and _perm_order(perms[0].value), R, site(un, q), ast.unparse(perms[0].value) if perms else "<none>",
                   "perms = [p, pp, ps, psp, sp, spp] (the order _c_digest_offsets indexes)", witness="rounds mix the P and S digests in the wrong order")
@@ -174,7 +193,7 @@ def rule_recipes(model, rep):
     rep.check(inner and all(x == "dc = md5(odd + md5(dc + even).digest()).digest()" for x in inner), R, site(H + "md5_crypt", "_raw_md5_crypt"), "; ".join(inner)[:100], "round pair: even round H(dc+even), odd round H(odd+dc)", witness=W)
     # sha1-crypt builtin
     fn = model.func(H + "sha1_crypt", "sha1_crypt._calc_checksum_builtin")
-    t = ast.unparse(fn)
+    t = qtext(fn)
     for f, why in (("result = f'{self.salt}$sha1${rounds}'.encode('ascii')", "seed = salt$sha1$rounds"), ("keyed_hmac = compile_hmac('sha1', secret)", "HMAC-SHA1 keyed with the password"),
                    ("return h64.encode_transposed_bytes(result, self._chk_offsets).decode('ascii')", "transposed hash64 output")):
         rep.check(has_stmt(fn, f), R, site(H + "sha1_crypt", "sha1_crypt._calc_checksum_builtin"), f, why, witness=W)
